@@ -296,7 +296,7 @@ META = {
                         'dup-with-nothing-outstanding', 'new-ack-after-one-or-two-duplicates'],
     'bounds': {'quick': 'Reno: flow of 3 MSS, initial window 1-2 MSS, then cwnd, ssthresh >= MSS, rttvar >= 0, rtt estimate > 0 arbitrary reals; '
                         'event histories of length <= 4 (new ACK advancing 1-2 segments with symbolic RTT sample, duplicate ACKs, timer expiries '
-                        'at symbolic instants, at most 1 expiry per history (2 for the empty history), initial RTT estimate >= 1; CUBIC: defaults, 6 events new/dup chosen by the solver, concrete dt/RTT',
+                        'at symbolic instants, at most 1 expiry per history (2 for the empty history), initial RTT estimate >= 1; CUBIC: defaults, 6 events new/dup chosen by the solver, concrete dt/RTT; duplicates with nothing outstanding; deflation only after the third duplicate',
                'thorough': 'histories <= 9, flows of 6 MSS with windows <= 4 MSS, CUBIC 9 events'},
     'assumptions': ['ACK numbers never exceed next_seq and never decrease (the statement speaks of new and duplicate ACKs)',
                     'an ACK repeating the last acknowledged byte counts as a duplicate also when nothing is outstanding (the statement makes no exception; only the retransmission is then not demanded)',
